@@ -179,7 +179,15 @@ pub fn c05(tier: Tier) -> Vec<Case> {
         let roots = vec![
             choice(vec![seq(vec![lit("x"), inc("A"), lit("x")]), seq(vec![field("a", "A"), lit("c")]), seq(vec![lit("x"), field("b", "B")])]),
             seq(vec![star(seq(vec![inc("A"), lit("x")])), opt(field("a", "A"))]),
+            // the included fields keep their arity in the includer (include in the top-level sequence)
+            seq(vec![lit("x"), inc("A"), opt(lit("x"))]),
+            seq(vec![inc("A"), opt(field("a", "A"))]),
         ];
+        let a_bodies = {
+            let mut v = a_bodies;
+            v.push(seq(vec![field("x", "B"), opt(seq(vec![lit("c"), field("y", "B")]))]));
+            v
+        };
         for r in &roots {
             for ab in &a_bodies {
                 for a_noskip in [false, true] {
@@ -232,6 +240,33 @@ pub fn c05(tier: Tier) -> Vec<Case> {
         let names = vec!["Root".to_string(), "A".to_string(), "B".to_string()];
         let grp = b.new_group();
         for (vi, mask) in subsets(3).into_iter().enumerate() {
+            b.add_variant(grp, vi, "memo-subsets/long-inputs", with_memo(&g, &names, mask), spec.clone(), &format!("mask{mask}"));
+        }
+        // a second alternative that re-reads the whole prefix: the same rule is looked up again at offsets it was
+        // stored at thousands of bytes (and many other entries) earlier
+        let mut inputs: Vec<String> = vec!["bx".into(), "bc".into(), "b".into()];
+        for n in super::e1::long_counts(tier).into_iter().filter(|n| *n <= 4097) {
+            for tail in ["x", "c", "y"] {
+                inputs.push(format!("{}{tail}", "b".repeat(n)));
+                inputs.push(format!("{}{tail}", "cb".repeat(n)));
+            }
+        }
+        let spec = InputSpec::List(inputs);
+        let item = choice(vec![lit("b"), seq(vec![lit("c"), lit("b")])]);
+        let root = choice(vec![
+            seq(vec![star(field("items", "A")), lit("x"), Expr::Eoi]),
+            seq(vec![star(field("items", "A")), lit("c"), Expr::Eoi]),
+            seq(vec![field("first", "A"), star(field("items", "A")), opt(lit("y"))]),
+        ]);
+        let g = Grammar {
+            rules: vec![
+                Rule::normal("Root", vec![Directive::Export, Directive::NoSkipWs, Directive::Position], root),
+                Rule::normal("A", vec![Directive::NoSkipWs, Directive::Position], item),
+            ],
+        };
+        let names = vec!["Root".to_string(), "A".to_string()];
+        let grp = b.new_group();
+        for (vi, mask) in subsets(2).into_iter().enumerate() {
             b.add_variant(grp, vi, "memo-subsets/long-inputs", with_memo(&g, &names, mask), spec.clone(), &format!("mask{mask}"));
         }
     }
@@ -379,7 +414,13 @@ pub fn c07(tier: Tier) -> Vec<Case> {
         ("bang", lit("!")),
         ("plusplus", seq(vec![lit("+"), lit("+")])),
     ];
-    let bases: Vec<(&str, Expr)> = vec![("n", field("n", "N")), ("nn", seq(vec![field("n", "N"), field("m", "N")])), ("bang", lit("!"))];
+    // `guarded`: the base alternative fails on a negative lookahead at the very offset the rule was entered at
+    let bases: Vec<(&str, Expr)> = vec![
+        ("n", field("n", "N")),
+        ("nn", seq(vec![field("n", "N"), field("m", "N")])),
+        ("bang", lit("!")),
+        ("guarded", seq(vec![not(lit("-")), field("n", "N")])),
+    ];
     let inputs_a = InputSpec::Strings { alphabet: vec!['n', '+', '-', '!'], max_len: len };
     let rec = |tail: &Expr| -> Expr {
         match tail {
@@ -442,7 +483,9 @@ pub fn c07(tier: Tier) -> Vec<Case> {
                     }
                     let fam = if base_first { "leftrec/usual/base-first" } else { "leftrec/usual/recursive-first" };
                     if b.add(fam, g, inputs_a.clone()) {
-                        b.last().note = if base_first { "base-first".into() } else { "recursive-first closed-form".into() };
+                        // the closed form knows bases made of tokens only (not the guarded one)
+                        let guarded = bs.contains(&3);
+                        b.last().note = if base_first { "base-first".into() } else if guarded { "recursive-first".into() } else { "recursive-first closed-form".into() };
                     }
                 }
             }
@@ -708,14 +751,51 @@ pub fn c13(tier: Tier) -> Vec<Case> {
                     }
                     let grp = b.new_group();
                     let fam = format!("include/{bn}/{dn}");
+                    let renamed = if *dn == "plain" { Some((rename_rules(&g_inc), rename_rules(&g_inl))) } else { None };
                     if b.add_variant(grp, 0, &fam, g_inc, inputs.clone(), "include") {
                         b.add_variant(grp, 1, &fam, g_inl, inputs.clone(), "inlined");
+                    }
+                    // the same pair with rule names that contain each other (Root > Roo > Ro): names are compared, not searched
+                    if let Some((r_inc, r_inl)) = renamed {
+                        let grp = b.new_group();
+                        let fam = format!("include-overlapping-names/{bn}");
+                        if b.add_variant(grp, 0, &fam, r_inc, inputs.clone(), "include") {
+                            b.add_variant(grp, 1, &fam, r_inl, inputs.clone(), "inlined");
+                        }
                     }
                 }
             }
         }
     }
     b.cases
+}
+
+/// Inc -> Roo, Inc2 -> Ro, Other -> RootOther
+fn rename_rules(g: &Grammar) -> Grammar {
+    let nn = |n: &str| -> String {
+        match n {
+            "Inc" => "Roo".into(),
+            "Inc2" => "Ro".into(),
+            "Other" => "RootOther".into(),
+            o => o.into(),
+        }
+    };
+    let rules = g
+        .rules
+        .iter()
+        .map(|r| {
+            let def = match &r.def {
+                RuleDef::Normal(b) => RuleDef::Normal(b.map(&|e| match e {
+                    Expr::Ref { name, boxed, rule } => Some(Expr::Ref { name: name.clone(), boxed: *boxed, rule: nn(rule) }),
+                    Expr::Include(r) => Some(Expr::Include(nn(r))),
+                    _ => None,
+                })),
+                other => other.clone(),
+            };
+            Rule { name: nn(&r.name), directives: r.directives.clone(), def }
+        })
+        .collect();
+    Grammar { rules }
 }
 
 // ------------------------------------------------------------------------------------------ C14
@@ -743,6 +823,9 @@ pub fn c14(tier: Tier) -> Vec<Case> {
             ("enum", vec![Rule::normal("H", vec![chk(c0)], choice(vec![over("X"), seq(vec![lit("c"), over("Y")])]))]),
             ("string", vec![Rule::normal("H", vec![chk(c0), Directive::String], seq(vec![lit("b"), opt(lit("c"))]))]),
             ("string-position", vec![Rule::normal("H", vec![Directive::String, chk(c0), Directive::Position], plus(range('b', 'c')))]),
+            // a left-recursive rule whose growth the check can stop (every growth step is checked)
+            ("leftrec", vec![Rule::normal("H", vec![chk(c0), Directive::Leftrec], choice(vec![seq(vec![bfield("l", "H"), lit("c")]), field("x", "X")]))]),
+            ("leftrec-position", vec![Rule::normal("H", vec![Directive::Leftrec, Directive::Position, chk(c0)], choice(vec![seq(vec![bfield("l", "H"), field("y", "Y")]), field("x", "X")]))]),
         ];
         if !ctxv {
             v.push((
@@ -828,7 +911,7 @@ pub fn c14(tier: Tier) -> Vec<Case> {
         for (kn, krules) in kinds(ctxv) {
             let normal = matches!(krules[0].def, RuleDef::Normal(_));
             for memo in [false, true] {
-                if memo && !normal {
+                if memo && (!normal || krules[0].directives.contains(&Directive::Leftrec)) {
                     continue;
                 }
                 for c in &retry {
@@ -892,6 +975,27 @@ pub fn c19(tier: Tier) -> Vec<Case> {
     // deep nesting: many rule entries open at once
     for g in nested_grammars() {
         if b.add("trace/deep", g, InputSpec::List(nested_inputs(&[0, 1, 2, 7, 31, 62, 63, 64, 65, 66, 90, 130, 200]))) {
+            b.last().note = "indented-all".into();
+        }
+    }
+    // multi-byte characters of every width at every distance 40..=56 bytes after a rule entry (the trace prints a
+    // bounded snippet of the remaining input at every entry and successful exit)
+    {
+        let mut inputs: Vec<String> = Vec::new();
+        for k in 40..=56usize {
+            for x in ['é', '香', '😀', '\u{a0}'] {
+                inputs.push(format!("{}{x}{}", "a".repeat(k), "a".repeat(12)));
+                inputs.push(format!("{}{x}{x}{}", "a".repeat(k), "b".repeat(60)));
+            }
+        }
+        let g = Grammar {
+            rules: vec![
+                Rule::normal("Root", vec![Directive::Export, Directive::NoSkipWs], seq(vec![star(field("c", "C")), Expr::Eoi])),
+                Rule::normal("C", vec![Directive::NoSkipWs], choice(vec![field("k", "K"), field("c", "char")])),
+                Rule::normal("K", vec![Directive::NoSkipWs, Directive::String], seq(vec![lit("b"), lit("b"), lit("b")])),
+            ],
+        };
+        if b.add("trace/long-multibyte", g, InputSpec::List(inputs)) {
             b.last().note = "indented-all".into();
         }
     }
@@ -1089,6 +1193,21 @@ pub fn c20(tier: Tier) -> Vec<Case> {
         if b.add("pure/memo-rare-hit", g2, InputSpec::List(inputs2)) {
             b.last().note = "no-reference".into();
         }
+    }
+    // a checked @char rule fed characters that agree in their low byte and differ in the check's verdict
+    {
+        let g = Grammar {
+            rules: vec![
+                Rule::normal("Root", vec![Directive::Export, Directive::NoSkipWs], seq(vec![star(field("c", "L")), Expr::Eoi])),
+                Rule {
+                    name: "L".into(),
+                    directives: vec![chk("chkc_lower")],
+                    def: RuleDef::Char { parts: vec![CharPart::Ident("char".into())], checks_before: 1 },
+                },
+            ],
+        };
+        let inputs: Vec<String> = ["p", "\u{170}", "b", "\u{162}", "è", "\u{1e8}", "pp", "\u{171}", "p\u{10070}", "\u{10070}"].iter().map(|s| s.to_string()).collect();
+        b.add("pure/char-check", g, InputSpec::List(inputs));
     }
     let _ = prune;
     b.cases
